@@ -1,11 +1,13 @@
-(* C04, C05, C07 at dimensionality 0 -- rank-0 owning arrays (static_array<T, 0, A> / array<T, 0, A>) and rank-0 references
+(* C04, C05, C07, C10 at dimensionality 0 -- rank-0 owning arrays (static_array<T, 0, A> / array<T, 0, A>) and rank-0 references
    (array_ref<T, 0>, subarray<T, 0>, const versions).  Model: Model/LifeRank0.v (programs over the checked micro-steps of
    Model/Life.v).  This file holds only the property theorems, each closed by `exact`, with Print Assumptions.
-   Every theorem holds for every configuration cfg (element kind: trivially default constructible / trivially destructible /
-   trivially copyable or not; the allocator traits play no part at rank 0). *)
+   Every theorem holds for every configuration cfg: element kind (trivially default constructible / trivially destructible /
+   trivially copyable or not) and, for C10 (last section), every combination of propagate_on_container_{copy_assignment,
+   move_assignment, swap}, is_always_equal and what select_on_container_copy_construction returns; allocator instances are
+   integers, equal iff always-equal or same id (std::pmr::polymorphic_allocator: no trait set, socc = the default resource). *)
 From BM Require Import Base.Tactics Model.Life Model.LifeRank0 Proofs.LifeMonad Proofs.LifeInv Proofs.LifeOps Proofs.LifeMain
   Proofs.LifeRank0Inv Proofs.LifeRank0Main Proofs.LifeRank0Val Proofs.LifeRank0Sem Proofs.LifeRank0Cmp Proofs.LifeRank0Copies
-  Proofs.LifeRank0Final.
+  Proofs.LifeRank0Final Proofs.LifeFacts Proofs.LifeRank0Alloc.
 Local Open Scope Z_scope.
 
 (* ================================ C04: value semantics of rank-0 owning arrays ================================ *)
@@ -93,12 +95,14 @@ Theorem C04_rank0_move_ctor_transfers :
 Proof. exact f_move_ctor_transfers. Qed.
 Print Assumptions C04_rank0_move_ctor_transfers.
 
-(* move assignment: same, and no storage is acquired or released *)
+(* move assignment: same; without allocator propagation no storage is acquired or released (with propagation and unequal
+   allocators the target is re-housed under the source's allocator: C10_rank0_move_assign_follows_pocma) *)
 Theorem C04_rank0_move_assign_transfers :
   forall cfg r t s s', Good cfg s -> dom_op0 (s_arrs s) (ZAssignMove r t) ->
     step0 cfg (ZAssignMove r t) (reset_counts s) = Ok tt s' ->
     vget (abs_state s') r = vget (abs_state s) t /\ s_copies s' = 0 /\ Good cfg s' /\
-    (forall q, q <> r -> nth_error (abs_state s') q = nth_error (abs_state s) q) /\ length (s_blocks s') = length (s_blocks s).
+    (forall q, q <> r -> nth_error (abs_state s') q = nth_error (abs_state s) q) /\
+    (c_pocma cfg = false -> length (s_blocks s') = length (s_blocks s)).
 Proof. exact f_move_assign_transfers. Qed.
 Print Assumptions C04_rank0_move_assign_transfers.
 
@@ -226,3 +230,114 @@ Theorem C07_rank0_trichotomy : forall x y,
   (rel0 CLt x y = false /\ rel0 CEq x y = false /\ rel0 CLt y x = true).
 Proof. exact rel0_trichotomy. Qed.
 Print Assumptions C07_rank0_trichotomy.
+
+(* ================================ C10: allocators of rank-0 owning arrays ================================ *)
+(* A rank-0 array always owns exactly one element, so there is no empty state to leave a moved-from object in, and the library
+   never detaches a block from a rank-0 array object: "move" constructs / assigns THE ELEMENT by move.  What the clauses of C10
+   say about every rank-0 entry point, for every trait configuration: *)
+
+(* every block is obtained from and released through an allocator equal to the one that produced it: the interpreter answers
+   Err EWrongAlloc / EWrongSize / EDoubleFree / EUnknownBlock otherwise, and for every trait configuration no step of any
+   fault-free history in its domain is Err (and Good says: the owner of each object's block compares equal to its allocator) *)
+Theorem C10_rank0_block_stays_with_allocator :
+  forall cfg (h : list lop0), hist_dom0 cfg h (st0 None) ->
+    let '(outs, s') := run_rank0 cfg h (st0 None) in Good cfg s' /\ Forall (fun o => o = OutOk) outs.
+Proof. exact f_history_invariant. Qed.
+Print Assumptions C10_rank0_block_stays_with_allocator.
+
+(* ... also when an allocation or an element operation throws anywhere in the history (same exclusion as C04 / C09) *)
+Theorem C10_rank0_block_stays_with_allocator_under_faults :
+  forall cfg (h : list lop0) k, hist_dom0 cfg h (st0 (Some k)) ->
+    let '(outs, s') := run_rank0 cfg h (st0 (Some k)) in
+    (forall w, In (EvThrow w) (s_ledger s') -> ok_site w) -> Good cfg s' /\ Forall not_err outs.
+Proof. exact f_history_invariant_fault. Qed.
+Print Assumptions C10_rank0_block_stays_with_allocator_under_faults.
+
+(* after every history each rank-0 array object sits on a live block produced by an allocator equal to get_allocator() *)
+Theorem C10_rank0_block_owner_is_own_allocator :
+  forall cfg (h : list lop0), hist_dom0 cfg h (st0 None) ->
+    forall r a, get_slot (snd (run_rank0 cfg h (st0 None))) r = Some a -> is0 a ->
+      exists b blk, a_base a = PBlk b /\ get_blk (snd (run_rank0 cfg h (st0 None))) b = Some blk /\ b_live blk = true /\
+                    alloc_eq cfg (b_owner blk) (a_alloc a) = true.
+Proof. exact history_block_owner0. Qed.
+Print Assumptions C10_rank0_block_owner_is_own_allocator.
+
+(* copy construction uses select_on_container_copy_construction (patch 16) and leaves the source object alone *)
+Theorem C10_rank0_copy_ctor_uses_select_on_container_copy_construction :
+  forall cfg r t s s' at_, get_slot s t = Some at_ -> step0 cfg (ZCtorCopy r t) s = Ok tt s' ->
+    alloc_of s' r = Some (socc cfg (a_alloc at_)) /\ (r <> t -> get_slot s' t = Some at_).
+Proof. exact ctor_copy_allocator0. Qed.
+Print Assumptions C10_rank0_copy_ctor_uses_select_on_container_copy_construction.
+
+(* move construction takes the source's allocator; the source keeps its allocator AND its block (its element is moved from) *)
+Theorem C10_rank0_move_ctor_takes_source_allocator :
+  forall cfg r t s s' at_, get_slot s t = Some at_ -> step0 cfg (ZCtorMove r t) s = Ok tt s' ->
+    alloc_of s' r = Some (a_alloc at_) /\ (r <> t -> get_slot s' t = Some at_).
+Proof. exact ctor_move_allocator0. Qed.
+Print Assumptions C10_rank0_move_ctor_takes_source_allocator.
+
+(* allocator-extended constructors -- (extensions, alloc), (alloc), (elem, alloc), (array const&, alloc), (array&&, alloc),
+   (reference, alloc), (array of a convertible element type, alloc), the buffer -- use the supplied allocator; the converting
+   single-argument constructor uses allocator_type{} *)
+Theorem C10_rank0_ctor_uses_supplied_allocator :
+  forall cfg o r a s s', supplied o = Some (r, a) -> step0 cfg o s = Ok tt s' -> alloc_of s' r = Some a.
+Proof. exact ctor_supplied_allocator0. Qed.
+Print Assumptions C10_rank0_ctor_uses_supplied_allocator.
+
+(* copy assignment (patch 17) replaces the allocator exactly when propagate_on_container_copy_assignment; the source object is
+   left alone; without propagation, or with equal allocators, the target keeps its block (the element is assigned in place);
+   otherwise it is re-housed on a block from the new allocator; in no case does it hold the source's block *)
+Theorem C10_rank0_copy_assign_follows_pocca :
+  forall cfg r t s s' ar at_, Good cfg s -> live0 (s_arrs s) r ar -> live0 (s_arrs s) t at_ -> r <> t ->
+    step0 cfg (ZAssignCopy r t) s = Ok tt s' ->
+    alloc_of s' r = Some (if c_pocca cfg then a_alloc at_ else a_alloc ar) /\
+    get_slot s' t = Some at_ /\
+    (c_pocca cfg = false \/ alloc_eq cfg (a_alloc ar) (a_alloc at_) = true -> base_of s' r = Some (a_base ar)) /\
+    base_of s' r <> Some (a_base at_) /\
+    (forall q, q <> r -> get_slot s' q = get_slot s q).
+Proof. exact copy_assign_allocator0. Qed.
+Print Assumptions C10_rank0_copy_assign_follows_pocca.
+
+(* move assignment (patch 18): the same with propagate_on_container_move_assignment.  In particular, moving between unequal
+   non-propagating allocators (pmr arrays on different memory resources) never hands one allocator's block to the other: the
+   source keeps its block and its allocator (get_slot s' t = Some at_), the target keeps its own *)
+Theorem C10_rank0_move_assign_follows_pocma :
+  forall cfg r t s s' ar at_, Good cfg s -> live0 (s_arrs s) r ar -> live0 (s_arrs s) t at_ -> r <> t ->
+    step0 cfg (ZAssignMove r t) s = Ok tt s' ->
+    alloc_of s' r = Some (if c_pocma cfg then a_alloc at_ else a_alloc ar) /\
+    get_slot s' t = Some at_ /\
+    (c_pocma cfg = false \/ alloc_eq cfg (a_alloc ar) (a_alloc at_) = true -> base_of s' r = Some (a_base ar)) /\
+    base_of s' r <> Some (a_base at_) /\
+    (forall q, q <> r -> get_slot s' q = get_slot s q).
+Proof. exact move_assign_allocator0. Qed.
+Print Assumptions C10_rank0_move_assign_follows_pocma.
+
+(* a.swap(b) and unqualified swap(a, b) (patch 19): under propagate_on_container_swap allocator and block are exchanged
+   TOGETHER; otherwise neither moves and the two elements are swapped *)
+Theorem C10_rank0_swap_follows_pocs :
+  forall cfg r t s s' ar at_, r <> t -> get_slot s r = Some ar -> get_slot s t = Some at_ ->
+    step0 cfg (ZSwapMember r t) s = Ok tt s' ->
+    alloc_of s' r = Some (if c_pocs cfg then a_alloc at_ else a_alloc ar) /\
+    alloc_of s' t = Some (if c_pocs cfg then a_alloc ar else a_alloc at_) /\
+    base_of s' r = Some (if c_pocs cfg then a_base at_ else a_base ar) /\
+    base_of s' t = Some (if c_pocs cfg then a_base ar else a_base at_).
+Proof. exact swap_member_allocators0. Qed.
+Print Assumptions C10_rank0_swap_follows_pocs.
+
+(* qualified std::swap(a, b) is the generic algorithm (a move construction and two move assignments): the allocators follow
+   propagate_on_container_move_assignment *)
+Theorem C10_rank0_std_swap_is_three_moves :
+  forall cfg r t s s' ar at_, Good cfg s -> live0 (s_arrs s) r ar -> live0 (s_arrs s) t at_ -> r <> t ->
+    step0 cfg (ZSwap r t) s = Ok tt s' ->
+    alloc_of s' r = Some (if c_pocma cfg then a_alloc at_ else a_alloc ar) /\
+    alloc_of s' t = Some (if c_pocma cfg then a_alloc ar else a_alloc at_) /\
+    (forall q, q <> r -> q <> t -> get_slot s' q = get_slot s q).
+Proof. exact swap_std_allocators0. Qed.
+Print Assumptions C10_rank0_std_swap_is_three_moves.
+
+(* every other entry point (assignment from elements / references / arrays of convertible type, writes, moving the element
+   out, everything through references) leaves allocator and block of every array object alone *)
+Theorem C10_rank0_elementwise_keeps_allocators :
+  forall cfg o s s', elementwise o -> step0 cfg o s = Ok tt s' -> s_arrs s' = s_arrs s.
+Proof. exact elementwise_keeps_objects0. Qed.
+Print Assumptions C10_rank0_elementwise_keeps_allocators.
